@@ -43,7 +43,8 @@ func aolRules(p *Prog, r *Report, clause string, want func(tag string) bool) *ao
 					FuncName(so.Fn), so.Op, PrefixName(so.Prefix), so.Key))
 		}
 		n := 0
-		fams := []string{"Owner", "Topic", "Writer", "Record"}
+		core := []string{"Owner", "Topic", "Writer", "Record"}
+		fams := append(append([]string(nil), core...), m.extraFamilies()...)
 		for _, f := range fams {
 			ops := map[string]int{}
 			for _, a := range m.byFamily[f] {
@@ -67,6 +68,9 @@ func aolRules(p *Prog, r *Report, clause string, want func(tag string) bool) *ao
 				}
 			}
 			for _, need := range []string{"Set", "Get", "Has"} {
+				if !isCoreAolFamily(f) {
+					break // a further family of the module may have any accessor set
+				}
 				if ops[need] == 0 {
 					r.Fail(kp("FAMILY", "missing:"+need+f), "each AOL family has Set/Get/Has accessors", "x/aol/keeper",
 						fmt.Sprintf("no %s accessor found for family %s (anchor unresolved)", need, f))
@@ -108,6 +112,8 @@ func aolRules(p *Prog, r *Report, clause string, want func(tag string) bool) *ao
 			if so.Op == "Delete" {
 				if a := m.acc[so.Fn]; a != nil && a.Family == "Writer" {
 					delW++
+				} else if a != nil && !isCoreAolFamily(a.Family) {
+					// deleting from a further family of the module does not touch owners, topics, writers or records
 				} else {
 					delOther = append(delOther, FuncName(so.Fn)+" at "+p.Pos(so.Instr.Pos()))
 				}
@@ -126,7 +132,7 @@ func aolRules(p *Prog, r *Report, clause string, want func(tag string) bool) *ao
 			r.Fail(kp("WMC", "anchor:aol.InitGenesis"), "anchor", "x/aol", "aol.InitGenesis not found")
 		}
 		allowed := map[string]map[string]bool{} // accessor name -> allowed caller names
-		for _, f := range []string{"Owner", "Topic", "Writer", "Record"} {
+		for _, f := range append([]string{"Owner", "Topic", "Writer", "Record"}, m.extraFamilies()...) {
 			for _, a := range m.byFamily[f] {
 				if a.Op != "Set" && a.Op != "Delete" {
 					continue
